@@ -569,7 +569,13 @@ class Gen:
             if kc in ('u32', 'u64'):
                 self.excl('small-int-ops')
                 return None          # std::abs has no unsigned overload (part of known/small-int-operator-table)
-            a, _ = self.operand(fn, C, d - 1)
+            a, ka = self.operand(fn, C, d - 1)
+            if C.is_float and 'small-int-ops' in EXCLUDE_KNOWN and not self.sf_of(fn, a, C):
+                # an exact integer-format operand: optimize=True hoists abs(...) into an exact (REAL) temporary dispatched on the
+                # operand's integer type -- std::abs(uint32_t / uint64_t) again.  Only a signed integer variable is safe.
+                if not (a in fn.env and ka in ('s8', 's16', 's32', 's64')):
+                    self.excl('small-int-ops')
+                    return None
             return f'abs({a})', kc
         if k == 'round':
             t, kk = self.num(fn, C, d - 1)
